@@ -44,9 +44,38 @@ fn res<T, E: std::fmt::Display>(r: Result<T, E>, f: impl Fn(T) -> Value) -> Valu
     }
 }
 
+/// a sink that accepts `left` more bytes and then fails (a full buffer, a closed pipe behind an adapter)
+struct Bounded {
+    left: usize,
+}
+impl std::fmt::Write for Bounded {
+    fn write_str(&mut self, s: &str) -> std::fmt::Result {
+        if s.len() > self.left {
+            self.left = 0;
+            return Err(std::fmt::Error);
+        }
+        self.left -= s.len();
+        Ok(())
+    }
+}
+
 fn display_of(e: &Error) -> Value {
-    match std::panic::catch_unwind(std::panic::AssertUnwindSafe(|| format!("{}", e))) {
-        Ok(s) => json!({"ok": true, "s": s}),
+    match std::panic::catch_unwind(std::panic::AssertUnwindSafe(|| {
+        use std::fmt::Write as _;
+        let first = format!("{}", e);
+        // fault injection: the same value formatted into sinks that fail at the first byte, half way and at the last byte;
+        // afterwards it must print exactly as before
+        let mut failed = 0;
+        for k in [0, first.len() / 2, first.len().saturating_sub(1)] {
+            let mut w = Bounded { left: k };
+            if write!(w, "{}", e).is_err() {
+                failed += 1;
+            }
+        }
+        let again = format!("{}", e);
+        (first, again, failed)
+    })) {
+        Ok((s, again, failed)) => json!({"ok": true, "s": s, "again": again, "failed_writes": failed}),
         Err(_) => json!({"ok": false}),
     }
 }
